@@ -127,3 +127,59 @@ Qed.
 
 Lemma gen_sweepB_eq best worst front : gen_sweepB best worst front = sweepB best worst front.
 Proof. reflexivity. Qed.   (* sweepB is outside the translator's grammar (while / iterator): placeholder *)
+
+(* ---- sortNDHelperB / sortNDHelperA: same recursion, callee by callee ---- *)
+Lemma fold_left_ext {A S} (f g : S -> A -> S) l : (forall s x, f s x = g s x) -> forall s, fold_left f l s = fold_left g l s.
+Proof. intros H. induction l; intros; cbn; [reflexivity|]. now rewrite H. Qed.
+
+Lemma zlen_2_inv {A} (l : list A) : zlen l = 2 -> exists a b, l = [a; b].
+Proof. destruct l as [|a [|b [|c l]]]; unfold zlen; cbn [length]; try lia. eauto. Qed.
+
+Ltac same_ifs := repeat match goal with |- (if ?c then _ else _) = (if ?c then _ else _) => destruct c eqn:? end.
+Ltac bool_cases :=
+  repeat match goal with
+  | |- context[is_dominated ?a ?b] => destruct (is_dominated a b)
+  | |- context[key_eqb ?a ?b] => destruct (key_eqb a b)
+  end; reflexivity.
+(* recursive calls: rewrite the closed ones with the induction hypothesis, case on their result, repeat *)
+Ltac calls IH :=
+  repeat (rewrite ?IH, ?obind_some;
+          match goal with
+          | |- context[obind (helperB ?fu ?a ?b ?c ?d) _] => destruct (helperB fu a b c d); cbn [obind]
+          | |- context[obind (helperA ?fu ?a ?c ?d) _] => destruct (helperA fu a c d); cbn [obind]
+          end); rewrite ?IH, ?obind_some.
+
+Ltac hB_branch IH :=
+  first [ reflexivity
+        | unfold helperB_direct; f_equal; apply fold_left_ext; intros ? ?; apply fold_left_ext; intros ? ?;
+          gnorm; rewrite ?gen_isDominated_eq; unfold weakly_dominated_upto, fbump; first [reflexivity | bool_cases]
+        | calls IH; reflexivity
+        | match goal with |- context[splitB ?b ?w ?o] => destruct (splitB b w o) as [[[? ?] ?] ?] end; calls IH; reflexivity ].
+
+Lemma gen_sortNDHelperB_eq fuel : forall best worst obj front,
+  gen_sortNDHelperB fuel best worst obj front = helperB fuel best worst obj front.
+Proof.
+  first [ intros; reflexivity
+        | induction fuel as [|fu IH]; intros best worst obj front; [reflexivity|];
+          cbn [gen_sortNDHelperB helperB]; gnorm; rewrite ?gen_sweepB_eq, ?gen_splitB_eq;
+          same_ifs; hB_branch IH ].
+Qed.
+
+Ltac hA_branch IH :=
+  first [ reflexivity
+        | zb2p; match goal with H : zlen ?fs = 2 |- _ => destruct (zlen_2_inv fs H) as (? & ? & ->) end;
+          rewrite ?py_nth_0, ?py_nth_1, ?gen_isDominated_eq; unfold fbump;
+          repeat match goal with |- context[slice_to ?s ?e] => change (slice_to s e) with (upto s e) end;
+          bool_cases
+        | calls IH; reflexivity
+        | match goal with |- context[splitA ?f ?o] => destruct (splitA f o) as [? ?] end;
+          calls IH; rewrite ?gen_sortNDHelperB_eq; calls IH; reflexivity ].
+
+Lemma gen_sortNDHelperA_eq fuel : forall fs obj front,
+  gen_sortNDHelperA fuel fs obj front = helperA fuel fs obj front.
+Proof.
+  first [ intros; reflexivity
+        | induction fuel as [|fu IH]; intros fs obj front; [reflexivity|];
+          cbn [gen_sortNDHelperA helperA]; gnorm; rewrite ?gen_sweepA_eq, ?gen_splitA_eq;
+          same_ifs; hA_branch IH ].
+Qed.
